@@ -8,6 +8,7 @@ use std::rc::Rc;
 
 thread_local! {
     static LAST_PANIC: RefCell<Option<String>> = const { RefCell::new(None) };
+    static IN_GUARD: std::cell::Cell<bool> = const { std::cell::Cell::new(false) };
 }
 
 pub const STACK_BYTES: usize = 8 << 20;
@@ -25,6 +26,10 @@ pub fn install_panic_hook() {
             .location()
             .map(|l| format!("{}:{}", l.file(), l.line()))
             .unwrap_or_else(|| "<unknown>".into());
+        if !IN_GUARD.with(|g| g.get()) {
+            // a panic of the harness itself, not of the code under test
+            println!("HARNESS-ERROR: harness panic: {} @ {}", first_line(&msg, 300), loc);
+        }
         LAST_PANIC.with(|p| *p.borrow_mut() = Some(format!("{} @ {}", first_line(&msg, 160), strip_repo(&loc))));
     }));
 }
@@ -43,7 +48,10 @@ fn strip_repo(loc: &str) -> String {
 
 fn guarded<T>(f: impl FnOnce() -> T) -> Result<T, String> {
     LAST_PANIC.with(|p| *p.borrow_mut() = None);
-    match catch_unwind(AssertUnwindSafe(f)) {
+    let was = IN_GUARD.with(|g| g.replace(true));
+    let r = catch_unwind(AssertUnwindSafe(f));
+    IN_GUARD.with(|g| g.set(was));
+    match r {
         Ok(v) => Ok(v),
         Err(_) => Err(LAST_PANIC
             .with(|p| p.borrow_mut().take())
